@@ -490,4 +490,157 @@ theorem exec_precancelled (ca : Option Nat) (t : List Ev) (k : Nat) :
     exec ca (Ev.check :: t) true k = ⟨false, [], 0⟩ := by
   simp [exec]
 
+
+/-! ### every report is guarded by a check (`checked_report`) -/
+
+/-- every `report` is immediately preceded by a `check`; the flag says whether the previous event
+was a check -/
+def Guarded : Bool → List Ev → Prop
+  | _, [] => True
+  | _, .check :: t => Guarded true t
+  | b, .report _ :: t => b = true ∧ Guarded false t
+  | _, .write :: t => Guarded false t
+
+theorem guarded_weaken {t : List Ev} (h : Guarded false t) (b : Bool) : Guarded b t := by
+  cases t with
+  | nil => trivial
+  | cons e t =>
+    cases e with
+    | check => exact h
+    | write => exact h
+    | report p => exact absurd h.1 (by simp)
+
+theorem guarded_append {a c : List Ev} {b : Bool} (ha : Guarded b a) (hc : Guarded false c) :
+    Guarded b (a ++ c) := by
+  induction a generalizing b with
+  | nil => exact guarded_weaken hc b
+  | cons e t ih =>
+    cases e with
+    | check => exact ih (b := true) ha
+    | write => exact ih (b := false) ha
+    | report p => exact ⟨ha.1, ih (b := false) ha.2⟩
+
+theorem guarded_reportIf (i f n : Nat) (b : Bool) : Guarded b (reportIf i f n) := by
+  unfold reportIf
+  by_cases h : i % f = 0
+  · rw [if_pos h]; exact ⟨rfl, trivial⟩
+  · rw [if_neg h]; trivial
+
+theorem guarded_replicate_write (k : Nat) (b : Bool) : Guarded b (List.replicate k Ev.write) := by
+  induction k generalizing b with
+  | zero => trivial
+  | succ k ih => rw [List.replicate_succ]; exact ih false
+
+theorem guarded_flatMap {α : Type} (l : List α) (g : α → List Ev) (hg : ∀ a b, Guarded b (g a))
+    (b : Bool) : Guarded b (l.flatMap g) := by
+  induction l generalizing b with
+  | nil => trivial
+  | cons a t ih =>
+    rw [List.flatMap_cons]
+    exact guarded_append (hg a b) (ih false)
+
+theorem guarded_loopTrace (n f : Nat) (extra : Nat → Nat) (b : Bool) :
+    Guarded b (loopTrace n f extra) :=
+  guarded_flatMap _ _ (fun i b' =>
+    guarded_append (guarded_reportIf i f n b') (guarded_replicate_write _ false)) b
+
+theorem guarded_family (fam : Family) (b : Bool) : Guarded b fam.trace := by
+  cases fam with
+  | copy w => exact ⟨rfl, guarded_replicate_write w false⟩
+  | chunked n f => exact guarded_loopTrace n f _ b
+  | biPlanar g f => exact guarded_append (guarded_loopTrace g f _ b) (by exact (trivial : Guarded true [Ev.write]))
+  | block bw rows f => exact guarded_loopTrace _ f _ b
+
+theorem guarded_parJobs (mt : Bool) (incs : List Nat) (total done : Nat) (b : Bool) :
+    Guarded b (parJobs mt incs total done) := by
+  induction incs generalizing done b with
+  | nil => trivial
+  | cons k ks ih =>
+    cases mt with
+    | true => exact ⟨rfl, ih (done + k) false⟩
+    | false => exact ih (done + k) true
+
+theorem guarded_levelRun (lv : LevelRun) (b : Bool) : Guarded b lv.trace := by
+  cases lv with
+  | seq fam =>
+    exact guarded_append (a := [Ev.check] ++ fam.trace) (guarded_family fam true) (trivial : Guarded true [])
+  | parSingle fam =>
+    exact guarded_append (a := [Ev.check, Ev.check] ++ fam.trace) (guarded_family fam true)
+      (trivial : Guarded true [])
+  | par mt incs total =>
+    refine guarded_append (a := [Ev.check] ++ parJobs mt incs total 0 ++
+      (incs.flatMap fun _ => [Ev.check, Ev.write])) ?_ ⟨rfl, trivial⟩
+    refine guarded_append (a := [Ev.check] ++ parJobs mt incs total 0) ?_ ?_
+    · exact guarded_parJobs mt incs total 0 true
+    · exact guarded_flatMap incs (fun _ => [Ev.check, Ev.write]) (fun _ _ => (trivial : Guarded true [Ev.write])) false
+
+theorem guarded_map_project (r : ProgressRange) (tr : List Ev) (b : Bool) (h : Guarded b tr) :
+    Guarded b (tr.map (Ev.project r)) := by
+  induction tr generalizing b with
+  | nil => trivial
+  | cons e t ih =>
+    cases e with
+    | check => exact ih true h
+    | write => exact ih false h
+    | report p => exact ⟨h.1, ih false h.2⟩
+
+theorem guarded_levels (m : Nat) (xs : List LevelRun) (l : Nat) (b : Bool) :
+    Guarded b (levelsTrace m l xs) := by
+  induction xs generalizing l b with
+  | nil => trivial
+  | cons x xs ih =>
+    exact guarded_append (guarded_map_project _ _ b (guarded_levelRun x b)) (ih (l + 1) false)
+
+theorem guarded_surface (lv0 : LevelRun) (mips : List LevelRun) (b : Bool) :
+    Guarded b (surfaceTrace lv0 mips) := by
+  unfold surfaceTrace
+  simp only
+  refine guarded_append (guarded_append (guarded_map_project _ _ b (guarded_levelRun lv0 b)) ?_)
+    ⟨rfl, trivial⟩
+  by_cases hm : mips.length = 0
+  · rw [if_pos hm]; trivial
+  · rw [if_neg hm]; exact guarded_levels _ mips 1 true
+
+theorem exec_reports_of_cancelled (ca : Option Nat) (tr : List Ev) (k : Nat)
+    (h : Guarded false tr) : (exec ca tr true k).reports = [] := by
+  induction tr generalizing k with
+  | nil => rfl
+  | cons e t ih =>
+    cases e with
+    | check => simp [exec]
+    | write => simp only [exec]; exact ih k h
+    | report p => exact absurd h.1 (by simp)
+
+/-- a run cancelled at report `j` makes exactly the reports `0..j` -/
+theorem exec_cancel_reports (tr : List Ev) (b : Bool) (h : Guarded b tr) (k0 j : Nat) (p : Rat)
+    (hj : (reports tr)[j]? = some p) :
+    (exec (some (k0 + j)) tr false k0).reports = (reports tr).take (j + 1) := by
+  induction tr generalizing k0 j b with
+  | nil => simp [reports] at hj
+  | cons e t ih =>
+    cases e with
+    | check =>
+      simp only [exec, reports]
+      exact ih true h k0 j hj
+    | write =>
+      simp only [exec, reports]
+      exact ih false h k0 j hj
+    | report q =>
+      simp only [exec, reports]
+      cases j with
+      | zero =>
+        simp only [Nat.add_zero, beq_self_eq_true, Bool.or_true]
+        rw [exec_reports_of_cancelled _ t (k0 + 1) h.2]
+        simp
+      | succ j' =>
+        simp only [reports, List.getElem?_cons_succ] at hj
+        have hne : (some (k0 + (j' + 1)) == some k0) = false := by simp
+        rw [hne]
+        simp only [Bool.or_false]
+        have := ih false h.2 (k0 + 1) j' hj
+        have e : k0 + 1 + j' = k0 + (j' + 1) := by omega
+        rw [e] at this
+        rw [this]
+        simp
+
 end Dds
